@@ -12,6 +12,7 @@ import (
 	"path/filepath"
 	"runtime"
 	"strconv"
+	"strings"
 	"time"
 
 	"verifharness/buildw"
@@ -248,17 +249,25 @@ func runReplay(path string) int {
 		fmt.Printf("ERROR cannot build: %v\n", err)
 		return 2
 	}
-	out, err := sim.ExecuteScenario(b.env, rf.Scenario)
-	if err != nil {
-		fmt.Printf("ERROR %v\n", err)
-		return 2
-	}
 	key := rf.Property + "/" + rf.Oracle + "/" + rf.Class
-	for _, v := range out.Violations {
-		if v.Key() == key {
-			fmt.Printf("VIOLATION property=%s replay=%s\n", rf.Property, path)
-			fmt.Printf("  oracle=%s class=%s: %s\n", v.Oracle, v.Class, v.Detail)
-			return 1
+	attempts := 1
+	if strings.HasSuffix(rf.Class, "/control") || (rf.Scenario.Infl != nil && rf.Scenario.Infl.Race) {
+		// nondeterminism under identical schedules, or the race-detector leg: replays statistically
+		attempts = 20
+	}
+	var out *sim.Outcome
+	for a := 0; a < attempts; a++ {
+		out, err = sim.ExecuteScenario(b.env, rf.Scenario)
+		if err != nil {
+			fmt.Printf("ERROR %v\n", err)
+			return 2
+		}
+		for _, v := range out.Violations {
+			if v.Key() == key {
+				fmt.Printf("VIOLATION property=%s replay=%s\n", rf.Property, path)
+				fmt.Printf("  oracle=%s class=%s (attempt %d): %s\n", v.Oracle, v.Class, a+1, v.Detail)
+				return 1
+			}
 		}
 	}
 	fmt.Printf("not reproduced: %s (violations now: %d)\n", key, len(out.Violations))
